@@ -118,7 +118,17 @@ class EventRule:
     def inline_ok(self, I, ci, body):
         if body.npath in self.no_inline:
             return False
-        return F.raw_key(body.path) in self._interesting
+        if F.raw_key(body.path) in self._interesting:
+            return True
+        # an event-free local function that returns Result<_, sink error> (e.g. the no-op twin of a feature-gated method):
+        # look into it, otherwise its declared type alone would suggest an Err outcome that no path produces
+        rt = body.body['locals'][0]['ty']
+        if rt.get('k') == 'adt' and F.norm_path(rt.get('path')) == RESULT and len(rt.get('args', [])) > 1 and len(body.blocks) <= 40:
+            et = rt['args'][1]
+            if et.get('k') == 'param' or (et.get('k') == 'alias' and 'ErrorType>::Error' in et.get('s', '')):
+                return not any(b['term']['k'] == 'call' and F.norm_path((b['term']['func'] or {}).get('path') or '') == body.npath
+                               for b in body.blocks)
+        return False
 
     # -- events --
     def classify(self, I, w, ci, args):
